@@ -16,7 +16,7 @@ CHECKS = {
               "volumes positive; orient_ swaps exactly the negative tets, keeps sets/order, returns their number, result oriented when "
               "non-degenerate; boundary_tria = exactly the faces whose vertex set occurs once, each once; ownership of transferred function; "
               "per-tet divergence identity; for every mesh in which no face belongs to more than two tetrahedra every edge lies in an even "
-              "number of boundary faces, so the extracted surface is closed (is_closed = true). Model tied to the code by in-Coq comparison "
+              "number of boundary faces, so the extracted surface is closed (is_closed = true); a second orient_ changes nothing and returns 0; is_oriented and orient_ are unchanged by proper rigid motions and positive scalings, reflections negate every signed volume (TetRigidP). Model tied to the code by in-Coq comparison "
               "on generated meshes; orientation and enclosed-volume clauses of the boundary (they need a geometric embedding without "
               "overlaps) are decided by oracle search only (partial)."),
         design="6/C12", technique="Coq proof over list model (sorting/grouping lemmas, ring) + vm_compute correspondence"),
